@@ -104,6 +104,63 @@ theorem is_null_def (tys : List Ty) (row : Row) (e : Expr) (v : Value) (h : eval
   simp [h, bne]
 
 
+/-! ## CASE -/
+
+/-- searched CASE: a WHEN whose condition is TRUE decides — its result is the value, whatever the later arms and the
+    ELSE are (they are not evaluated: `CASE WHEN b = 0 THEN 0 ELSE a / b END` never divides by zero) -/
+theorem case_when_true (tys : List Ty) (row : Row) (c r : Expr) (rest : List Expr)
+    (h : eval .none tys row c = .ok (.bool true)) :
+    eval .none tys row (.caseWhen (c :: r :: rest)) = eval .none tys row r := by
+  simp only [eval, evalCaseWhen, Defects.none] at h ⊢
+  simp [h, asTV]
+
+/-- … a WHEN whose condition is FALSE or unknown is skipped -/
+theorem case_when_not_true (tys : List Ty) (row : Row) (c r : Expr) (rest : List Expr) (v : Value)
+    (h : eval .none tys row c = .ok v) (hv : v = .bool false ∨ v = .null) :
+    eval .none tys row (.caseWhen (c :: r :: rest)) = eval .none tys row (.caseWhen rest) := by
+  simp only [eval, evalCaseWhen, Defects.none] at h ⊢
+  rcases hv with rfl | rfl <;> simp [h, asTV]
+
+/-- … and when no WHEN is left the value is the ELSE expression, NULL without ELSE -/
+theorem case_else (tys : List Ty) (row : Row) (e : Expr) :
+    eval .none tys row (.caseWhen [e]) = eval .none tys row e ∧
+    eval .none tys row (.caseWhen []) = .ok .null ∧
+    eval .none tys row (.caseWhen [.lit .null]) = .ok .null := by
+  simp [eval, evalCaseWhen]
+
+/-- the searched form of a simple CASE: every WHEN value `v` becomes the condition `x = v` -/
+def simpleToSearched (x : Expr) : List Expr → List Expr
+  | c :: r :: rest => .cmp .eq x c :: r :: simpleToSearched x rest
+  | l => l
+
+/-- simple CASE `CASE x WHEN v THEN r …` is an abbreviation of `CASE WHEN x = v THEN r …`
+    (so a NULL operand or a NULL WHEN value never matches) -/
+theorem case_simple_def (tys : List Ty) (row : Row) (x : Expr) (xv : Value)
+    (hx : eval .none tys row x = .ok xv) (parts : List Expr) :
+    eval .none tys row (.caseOf x parts) = eval .none tys row (.caseWhen (simpleToSearched x parts)) := by
+  have key : ∀ ps : List Expr, evalCaseOf {} tys row xv ps = evalCaseWhen {} tys row (simpleToSearched x ps) := by
+    intro ps
+    fun_induction simpleToSearched x ps with
+    | case1 c r rest ih =>
+      simp only [evalCaseOf, simpleToSearched, evalCaseWhen, eval]
+      simp only [Defects.none] at hx
+      rw [hx]
+      cases hc : eval {} tys row c with
+      | error e => rfl
+      | ok w =>
+        simp only [asTV_toValue]
+        rcases hcmp : cmp3 .eq xv w with _ | _ | _ <;> simp [ih]
+    | case2 l hl =>
+      cases l with
+      | nil => simp [simpleToSearched, evalCaseOf, evalCaseWhen]
+      | cons a l' =>
+        cases l' with
+        | nil => simp [simpleToSearched, evalCaseOf, evalCaseWhen]
+        | cons b l'' => exact absurd rfl (hl a b l'')
+  simp only [eval, Defects.none] at hx ⊢
+  rw [hx]
+  exact key parts
+
 /-! ## Aggregates -/
 
 /-- COUNT(expr) counts the non-NULL values only; COUNT(*) counts rows -/
